@@ -1,14 +1,18 @@
 """C05 — search always terminates with a legal best move, ponder move and PV."""
 import generic as G
+from props.oracle_common import pos_stream
 PID = "C05"
 
 
 def check(tier, seed):
     q = tier == "quick"
     return G.generic_check(PID, "proof", tier, seed, coq=True,
-        rule="obligations: theorems of coq/properties/C05.v + C05_sites_recognised; correspondence: real depth 1-3 searches in the minimal configuration (PVS on/off) replayed by the PV-buffer model inside Coq from the dumped game tree and the comparison outcomes of a reference alpha-beta: final PV, every iteration PV and the best move must be what the model computes, and playable in the tree (c05-cases, Replay.run_case); monitor: real searches on corpus/random-game positions (incl. drawn roots) under random limit modes (depth, nodes, movetime, clock, infinite+stop after a random delay, ponder+ponderhit/stop), random combinations of all 25 feature switches, one Search object mostly reused so hash and history tables carry over; validated by replay: best move legal, ponder move legal after it, final PV and every 'info ... pv' line playable and starting with the best move, caller's position (FEN, key) unchanged, exactly one result, termination under a watchdog; a case = one search",
+        rule="obligations: theorems of coq/properties/C05.v + C05_sites_recognised; correspondence: real depth 1-3 searches in the minimal configuration (PVS on/off) replayed by the PV-buffer model inside Coq from the dumped game tree and the comparison outcomes of a reference alpha-beta: final PV, every iteration PV and the best move must be what the model computes, and playable in the tree (c05-cases, Replay.run_case); assumption stream: WasLegalMove / IsLegalMove / GenerateLegalMoves vs the extracted rules specification (the PV-buffer theorems take the legality flags of delivered moves as given); monitor: real searches on corpus/random-game positions (incl. drawn roots) under random limit modes (depth, nodes, movetime, clock, infinite+stop after a random delay, ponder+ponderhit/stop), random combinations of all 25 feature switches, one Search object mostly reused so hash and history tables carry over; validated by replay: best move legal, ponder move legal after it, final PV and every 'info ... pv' line playable and starting with the best move, caller's position (FEN, key) unchanged, exactly one result, termination under a watchdog; a case = one search",
         streams=[dict(name="pv_model_vs_engine", kind="coqcases", shards=lambda t: 2 if t == "quick" else 16,
                       args=lambda t, s, sh, path: ["c05-cases", 60 if t == "quick" else 250, s * 1000 + 400 + sh, path], coq_timeout=3000),
+                 # assumption of the model: the legality filter the search relies on (WasLegalMove after DoMove, root moves from
+                 # GenerateLegalMoves) is the rules' legality - checked against the extracted specification
+                 pos_stream("assumption_legality_filter", ["legality-post", "legality-pre", "legal-move-list"], npos_quick=150, npos_thorough=1500),
                  dict(name='search_monitor', kind="monitor", shards=lambda t: 4 if t == "quick" else 16,
                       args=lambda t, s, sh, path: ['c05-monitor', 40 if t == "quick" else 600, s * 1000 + sh])])
 
